@@ -32,7 +32,8 @@ fn c12_take_slice_aligned_contract() {
     kani::cover!(take_len == 65 && off == 3, "C12:reachable");
 }
 
-/// The only admissible panic: not enough aligned bytes.  (`should_panic`: the harness passes iff every execution panics.)
+/// The only admissible panic: not enough aligned bytes.  (`should_panic`: Kani reports success iff the only failures are panics and
+/// at least one is reachable; that requests which fit never panic is the contract harness above.)
 #[kani::proof]
 #[kani::should_panic]
 #[kani::stub(alloc::fmt::format, fmt_stub)]
